@@ -85,6 +85,12 @@ def text_case(rng):
     for s, nm in zip(srcs, names):
         ext = world.SUFFIX[s.container]
         s.path = (rng.choice(("", "", "d/", "d/e/")) + nm + ext)
+    if len(srcs) >= 2 and rng.random() < 0.25:
+        # the same base name in two directories (name and path prepends then differ in more than width)
+        a, b = rng.sample(range(len(srcs)), 2)
+        ext = world.SUFFIX[srcs[a].container]
+        if world.SUFFIX[srcs[b].container] == ext:
+            srcs[a].path, srcs[b].path = "p/same" + ext, "q/r/same" + ext
     # optionally a source that prints nothing (its name must not influence the aligned width)
     if rng.random() < 0.3:
         d = b"no timestamp in this file\n"
